@@ -112,7 +112,8 @@ ATOMS = [
     ('python_version', '>', '"2.7"'), ('os_name', '!=', '"java"'),
 ]
 VAR_ALIASES = {"os_name": ["os.name"], "sys_platform": ["sys.platform"], "platform_machine": ["platform.machine"]}
-VERSIONS = ["1.2", "0.1", "2.0.post1", "1.0.0", "3", "1.2.3", "0.0.1", "2.0rc1", "1.0.dev3", "10.4", "1!2.0", "1.0+local.1"]
+VERSIONS = ["1.2", "0.1", "2.0.post1", "1.0.0", "3", "1.2.3", "0.0.1", "2.0rc1", "1.0.dev3", "10.4", "1!2.0", "1.0+local.1",
+            "0.7.dev12+g1a2b3c4", "3.1.post2", "1.1a2.dev1", "2.0.0b3"]
 ODD_VERSIONS = ["1.2.0-1", "v1.0", "1.0_post2", "01.02", "1.0.0.0", " 1.5 "]
 
 
@@ -878,13 +879,34 @@ def lead_for(rng, d: Dict[str, Any]) -> str:
     return f"{name}-{ver}"
 
 
-def fn_tokens(enc440, path: str) -> Optional[str]:
-    from req_compile.filename import parse_source_filename
-    try:
-        n, v = parse_source_filename(os.path.basename(path))
-    except Exception:
-        return None
-    return "{} {}".format(hx(n), "N" if v is None else "V " + enc440.ver_token(v))
+def fn_expected(path: str) -> Tuple[str, Optional[str]]:
+    """what the FILE NAME the harness gave to a project says (the harness builds archives as <name>-<version>.<ext>,
+    versions never contain a dash): name with '_' spelled '-', version text; a directory says nothing about a version.
+    Deliberately NOT computed with req_compile.filename.parse_source_filename (the code under test)."""
+    base = os.path.basename(path)
+    for ext in (".tar.gz", ".zip"):
+        if base.endswith(ext):
+            stem = base[: -len(ext)]
+            name, _, ver = stem.rpartition("-")
+            return name.replace("_", "-"), ver
+    return base, None
+
+
+def fn_tokens(enc440, path: str, ctx: Optional[Ctx] = None) -> Optional[str]:
+    from packaging.version import Version
+    n, v = fn_expected(path)
+    ver = Version(v) if v is not None else None
+    if ctx is not None:
+        from req_compile.filename import parse_source_filename
+        try:
+            rn, rv = parse_source_filename(os.path.basename(path))
+            got: Any = (rn, None if rv is None else str(rv))
+        except Exception as ex:
+            got = ("EXC", type(ex).__name__)
+        ctx.count("file-name:" + ("archive" if v is not None else "directory"))
+        if got != (n, None if ver is None else str(ver)):
+            ctx.mismatch("file-name-version", os.path.basename(path), got, (n, None if ver is None else str(ver)))
+    return "{} {}".format(hx(n), "N" if ver is None else "V " + enc440.ver_token(ver))
 
 
 def pyproject_text(d: Dict[str, Any]) -> str:
@@ -938,7 +960,7 @@ def t2_rendered(ctx: Ctx, enc440, MM, S, MetadataError) -> None:
                 n_ev = len(stubs.events)
                 obs = observe_extract(enc440, MM, MetadataError, paths[k])
                 ev = stubs.events[n_ev:]
-                fnt = fn_tokens(enc440, paths[k])
+                fnt = fn_tokens(enc440, paths[k], ctx)
                 has_py = style == "setup_py"
                 has_cfg = any(f == "setup.cfg" for f, _ in files)
                 pyp = "P" if style == "pyproject" else "B" if any(f == "pyproject.toml" for f, _ in files) else "N"
@@ -1281,7 +1303,7 @@ def t2_batches(ctx: Ctx, enc440, MM, S, MetadataError) -> None:
         lines = []
         for j, prog in enumerate(batch):
             for k in "DTZ":
-                lines.append("F {} {} {}".format(k, fn_tokens(enc440, rendered[j][k]), enc_decl(enc440, effs[j], None)))
+                lines.append("F {} {} {}".format(k, fn_tokens(enc440, rendered[j][k], ctx), enc_decl(enc440, effs[j], None)))
         ans = run_model("C12", lines)
         for order in itertools.permutations(range(len(batch))):
             kinds = rng.choice(kinds_choices)
@@ -1363,7 +1385,7 @@ def t2_idioms(ctx: Ctx, enc440, MM, S, MetadataError) -> None:
     for pi, (prog, files, eff, lead, paths) in enumerate(progs):
         cfgv = cfg_values(cfg_text(eff["cfg"])) if eff["cfg"] is not None else None
         for k in ("D", "T", "Z"):
-            lines.append("F {} {} {}".format(k, fn_tokens(enc440, paths[k]), enc_decl(enc440, eff, cfgv)))
+            lines.append("F {} {} {}".format(k, fn_tokens(enc440, paths[k], ctx), enc_decl(enc440, eff, cfgv)))
         lines.append("D " + enc_decl(enc440, eff, cfgv))
     ans = run_model("C12", lines)
     for pi, (prog, files, eff, lead, paths) in enumerate(progs):
@@ -1644,7 +1666,7 @@ class Frame:
 
 
 FRAME_KINDS = ["helper", "helper", "pop0", "pop0", "drop", "remove", "insert", "raise", "sysexit", "chdir", "pep517", "pep517_broken",
-               "rename", "rename", "readver", "readver"]
+               "rename", "rename", "readver", "readver", "damaged_zip", "damaged_tar"]
 TEMPLATE_VERSION = "0.0.0.dev0"
 PEP517_TMPL = ('[build-system]\nrequires = ["setuptools"]\nbuild-backend = "setuptools.build_meta"\n[project]\nname = "{name}"\n'
                '{ver}\ndependencies = ["own{i}>=1"]\n')
@@ -1655,7 +1677,7 @@ def gen_frame_project(rng, i: int, helper: str, kind: Optional[str] = None) -> D
     name = "fp%d" % i
     version = "%d.%d" % (1 + i % 7, i % 5)
     return {"i": i, "kind": kind, "name": name, "version": version, "helper": helper,
-            "packaging": "D" if kind.startswith("pep517") else rng.choice("DTZ"),
+            "packaging": "D" if kind.startswith("pep517") else "Z" if kind == "damaged_zip" else "T" if kind == "damaged_tar" else rng.choice("DTZ"),
             "relative": rng.random() < 0.5, "updir": rng.random() < 0.3}
 
 
@@ -1667,6 +1689,12 @@ def frame_files(fp: Dict[str, Any]) -> List[Tuple[str, str]]:
     if kind == "pep517_broken":
         return [("pyproject.toml", PEP517_TMPL.format(name=fp["name"], ver='dynamic = ["version"]', i=i)
                  + '[tool.setuptools.dynamic]\nversion = {attr = "nosuchmodule%d.__version__"}\n' % i), (fp["name"] + "/__init__.py", "")]
+    if kind.startswith("damaged"):
+        # an ordinary project whose setup.py reads its requirements file; the ARCHIVE is damaged afterwards so that the
+        # damage only shows when that member is read (see damage_zip_member / damage_tar_payload)
+        return [("setup.py", "from setuptools import setup\nreqs = open('requirements.txt').read().split()\n"
+                             "setup(name=%r, version=%r, install_requires=reqs)\n" % (fp["name"], fp["version"])),
+                ("requirements.txt", "own%d>=1\n" % i + "".join("filler%d\n" % j for j in range(400)))]
     if kind in ("rename", "readver"):
         # the version lives in a data file; "rename" promotes VERSION.in to VERSION first (os.rename is emulated
         # by the analyser: Extractor.add_rename), "readver" reads its own VERSION and also ships a VERSION.in template
@@ -1713,13 +1741,16 @@ def frame_model_project(fp: Dict[str, Any], lead: str, arg: str, real_dir: str) 
     here = root if k == "D" else sd
     kind, N = fp["kind"], fp["helper"]
     if kind.startswith("pep517"):
-        return "{} {} {} {} - 0 0 0 R".format(fp["i"], "P1" if kind == "pep517_broken" else "P0", hx(arg), hx(real_dir))
+        return "{} {} {} {} - 0 0 0 0 R".format(fp["i"], "P1" if kind == "pep517_broken" else "P0", hx(arg), hx(real_dir))
     rel = "" if k == "D" else lead + "/"         # Extractor.to_relative: names relative to the fake root
     if kind in ("rename", "readver"):
         data = [rel + f for f, _ in frame_files(fp) if f != "setup.py"]
         ops = (["N {} {}".format(hx(rel + "VERSION.in"), hx(rel + "VERSION"))] if kind == "rename" else []) + ["F " + hx(rel + "VERSION")]
-        return "{} S {} {} {} 0 {} {} {} {} R".format(fp["i"], hx(arg), hx(real_dir), hx(sd), len(data), " ".join(hx(x) for x in data),
-                                                      len(ops), " ".join(ops))
+        return "{} S {} {} {} 0 {} {} 0 {} {} R".format(fp["i"], hx(arg), hx(real_dir), hx(sd), len(data), " ".join(hx(x) for x in data),
+                                                        len(ops), " ".join(ops))
+    if kind.startswith("damaged"):
+        data = [rel + "requirements.txt"]
+        return "{} S {} {} {} 0 1 {} 1 1 F {} R".format(fp["i"], hx(arg), hx(real_dir), hx(sd), hx(data[0]), hx(data[0]))
     ops = []
     helpers = [(N, sd)]
     if kind == "insert":
@@ -1735,7 +1766,7 @@ def frame_model_project(fp: Dict[str, Any], lead: str, arg: str, real_dir: str) 
     elif kind == "chdir":
         ops.append("C " + hx("pkg"))
     ending = "X" if kind == "raise" else "E" if kind == "sysexit" else "R"
-    return "{} S {} {} {} {} {} 0 {} {} {}".format(
+    return "{} S {} {} {} {} {} 0 0 {} {} {}".format(
         fp["i"], hx(arg), hx(real_dir), hx(sd), len(helpers), " ".join(hx(n) + " " + hx(d) for n, d in helpers),
         len(ops), " ".join(ops), ending)
 
@@ -1795,6 +1826,29 @@ def served_content(fp: Dict[str, Any], served: str) -> Optional[str]:
     return None
 
 
+def damage_zip_member(path: str, member_suffix: str) -> None:
+    """intact central directory, one member whose (stored) data no longer matches its CRC-32: found only when read"""
+    data = bytearray(Path(path).read_bytes())
+    with zipfile.ZipFile(path) as zf:
+        info = [i for i in zf.infolist() if i.filename.endswith(member_suffix)][0]
+        start = info.header_offset + 30 + len(info.filename.encode()) + len(info.extra)
+    # the local header's extra field may differ from the central one: locate the data by its content instead
+    body = b"filler7\n"
+    pos = data.find(body, info.header_offset)
+    data[pos] = ord("F")
+    Path(path).write_bytes(bytes(data))
+
+
+def damage_tar_payload(path: str) -> None:
+    """a COMPLETE gzip stream whose tar payload ends inside the last member: found only when that member is read"""
+    import gzip
+    raw = gzip.decompress(Path(path).read_bytes())
+    with tarfile.open(path) as tf:
+        last = [m for m in tf.getmembers() if m.isreg()][-1]
+    cut = last.offset_data + max(1, last.size // 2)
+    Path(path).write_bytes(gzip.compress(raw[:cut]))
+
+
 def run_frame_sequence(enc440, MM, S, MetadataError, ws: Path, seq: List[Dict[str, Any]], names: List[str],
                        real_egg_info: bool = False) -> List[Dict[str, Any]]:
     """render the projects of seq, then analyse them in order in this process from ONE working directory
@@ -1811,12 +1865,21 @@ def run_frame_sequence(enc440, MM, S, MetadataError, ws: Path, seq: List[Dict[st
         target = paths[fp["packaging"]]
         fp["_target"], fp["_lead"] = target, lead
         fp["_arg"] = os.path.relpath(target, str(cwd)) if fp["relative"] else target
+        if fp["kind"] == "damaged_zip":
+            damage_zip_member(target, "requirements.txt")
+        elif fp["kind"] == "damaged_tar":
+            damage_tar_payload(target)
     try:
         os.chdir(cwd)
         with Stubs(S, real_egg_info=real_egg_info):
             for pos, fp in enumerate(seq):
                 before = Frame(names)
-                obs = observe_extract(enc440, MM, MetadataError, fp["_arg"], semantic=real_egg_info)
+                if fp["kind"].startswith("damaged"):
+                    # the archive error surfaces in the fall-back's extract(): that part must run for real
+                    with Stubs(S, real_egg_info=True):
+                        obs = observe_extract(enc440, MM, MetadataError, fp["_arg"], semantic=real_egg_info)
+                else:
+                    obs = observe_extract(enc440, MM, MetadataError, fp["_arg"], semantic=real_egg_info)
                 d = before.delta()
                 same = {"cwd": before.cwd, "path": before.path, "hooks": 0, "modules": [], "patched": [], "capture": before.capture,
                         "renames": before.renames}
@@ -1846,6 +1909,10 @@ def gen_frame_sequence(rng, base_i: int) -> List[Dict[str, Any]]:
         seq[0] = gen_frame_project(rng, base_i, N, "pep517_broken")
         seq[1] = gen_frame_project(rng, base_i + 1, N, rng.choice(["helper", "pep517", "chdir"]))
         seq[1]["relative"] = True
+    elif r < 0.9 and r >= 0.8:   # healthy, damaged archive, healthy
+        seq = [gen_frame_project(rng, base_i, N, rng.choice(["helper", "readver"])),
+               gen_frame_project(rng, base_i + 1, N, rng.choice(["damaged_zip", "damaged_tar"])),
+               gen_frame_project(rng, base_i + 2, N, rng.choice(["helper", "chdir", "readver"]))]
     elif r < 0.8:         # a project that renames a data file, then one that reads the new name while shipping the old one
         seq[0] = gen_frame_project(rng, base_i, N, "rename")
         seq[1] = gen_frame_project(rng, base_i + 1, N, "readver")
@@ -1861,6 +1928,10 @@ def t2_frames(ctx: Ctx, enc440, MM, S, MetadataError) -> None:
     base = ctx.tmpdir() / "frames"
     for sidx in range(nseq):
         seq = gen_frame_sequence(rng, 100 * sidx)
+        if sidx < 2:      # every run: healthy, damaged archive (zip, then tar), healthy
+            seq = [gen_frame_project(rng, 100 * sidx, "_about", "helper"),
+                   gen_frame_project(rng, 100 * sidx + 1, "_about", ["damaged_zip", "damaged_tar"][sidx]),
+                   gen_frame_project(rng, 100 * sidx + 2, "_about", rng.choice(["helper", "readver"]))]
         ws = base / str(sidx)
         ws.mkdir(parents=True, exist_ok=True)
         steps = run_frame_sequence(enc440, MM, S, MetadataError, ws, seq, names)
@@ -1884,6 +1955,9 @@ def t2_frames(ctx: Ctx, enc440, MM, S, MetadataError) -> None:
             own = owner_of(st["obs"])
             if own is not None and own != fp["i"]:
                 ctx.mismatch("result-depends-on-history", case, {"served": own, "obs": st["obs"]}, {"own": fp["i"]})
+            # model-independent: a project that cannot be analysed is a METADATA failure of that project
+            if (fp["kind"].startswith("damaged") or fp["kind"] in ("raise", "pep517_broken")) and st["obs"] != ("MetadataError",):
+                ctx.mismatch("failure-not-a-metadata-failure", case, st["obs"], ("MetadataError",))
             if fp["kind"] in ("rename", "readver") and st["obs"][0] == "OK" and tag_of(st["obs"]) != tag_for(fp["version"]):
                 ctx.mismatch("result-depends-on-history", case, {"read": tag_of(st["obs"]), "obs": st["obs"]}, {"own": tag_for(fp["version"])})
             if diverged:
@@ -2214,6 +2288,8 @@ def oracle_frame_sequence(ctx: Ctx, enc440, MM, S, MetadataError, seq: List[Dict
             pos, fp["kind"], {"D": "directory", "T": ".tar.gz", "Z": ".zip"}[fp["packaging"]],
             "relative" if fp["relative"] else "absolute", hist or "nothing")
         hist.append(fp["kind"])
+        if fp["kind"].startswith("damaged") and obs != ("MetadataError",):
+            return who + ": a damaged archive is reported as " + str(obs[:2]) + " instead of a MetadataError of that project"
         if fp["kind"] in OK_KINDS:
             if obs[0] not in ("OK", "OKSEM"):
                 return who + ": reported as " + str(obs[:2]) + " although it is analysable alone"
